@@ -157,9 +157,14 @@ def undo_rfc2047(v):
 
 
 def awkward_realm(realm):
-    """realms the tools paste unescaped between double quotes: the statement's "well-formed challenge" cannot hold
-    (digest) or the tool refuses the configuration outright (basic, for the double quote)"""
+    """realms that have to be written with quoted-pair escapes in a challenge (fixed finding F26)"""
     return '"' in realm or '\\' in realm
+
+
+def refused_config(cfg):
+    """basic_auth refuses a realm containing a double quote with ValueError (a configuration error raised on every
+    request): of such a configuration only soundness is demanded"""
+    return cfg['tool'] == 'basic' and '"' in cfg['realm']
 
 
 # ----------------------------------------------------------------------------------------------
@@ -1008,8 +1013,6 @@ def gen_digest_case(rng, cfg, world):
     if sent_qop == 'auth-int' and wellformed is True:
         wellformed = None       # the tool never offers auth-int: answering 400 to it is as good as 401
     mode = 'no5xx' if kind == 'int_nonce_ts' else 'full'
-    if awkward_realm(cfg['realm']) and mode == 'full':
-        mode, conforming, wellformed = 'sound', False, None
     return {'cfg': cfg, 'kind': kind, 'method': method, 'body': body, 'now': now, 'header': header,
             'cands': cands, 'genuine': genuine, 'conforming': conforming, 'wellformed': wellformed,
             'sent_alg': sent_alg, 'sent_qop': sent_qop, 'age': age, 'oracle': mode}
@@ -1265,7 +1268,7 @@ def gen_basic_case(rng, cfg, world):
     case = {'cfg': cfg, 'kind': kind, 'method': rng.choice(METHODS), 'body': '', 'now': now, 'header': header,
             'raws': [r.decode('latin-1') for r in raws], 'conforming': conforming, 'wellformed': wellformed,
             'expect_login': expect, 'sent': cred if text is not None and kind.split(':')[0] not in ('scheme',) else None}
-    if awkward_realm(cfg['realm']):
+    if refused_config(cfg):
         case.update({'oracle': 'sound', 'conforming': False, 'wellformed': None, 'expect_login': None})
     return case
 
